@@ -303,7 +303,14 @@ func (m Message) GetMetaSeqData(bt *[]byte) bool {
 	}
 
 	if bt != nil {
-		data := m.metaDataWithoutVarlength()
+		// the length is a variable length quantity: skip all of its bytes (two and more for data >= 128 bytes)
+		data := m[2:]
+		for len(data) > 0 && data[0]&0x80 != 0 {
+			data = data[1:]
+		}
+		if len(data) > 0 {
+			data = data[1:]
+		}
 		*bt = data
 	}
 	return true
